@@ -3,6 +3,7 @@ from ..core import holds, violation, unrecognised
 from . import dls
 
 ID = "C05"
+ANCHORS = 'deep_lift_shap._nonlinear,deep_lift_shap.hypothetical_attributions,deep_lift_shap.deep_lift_shap'.split(",")
 MIN_INSTANCES = 6
 EXPLANATION = (
     "R-TERM: the canonical term of deep_lift_shap._nonlinear equals the rescale rule exactly as the property states it: "
